@@ -20,6 +20,7 @@ from simkit.driver import Outcome
 from simkit.reactor import SimReactor, Sim, SimHang, FakeSelectable
 from simkit.targets import World, TExt, OUTCOMES
 from simkit.tape import digest_of
+from simkit.program import _RETURNS
 
 try:   # keep Twisted from printing buffered "Unhandled Error" reports to stderr
     from twisted.logger import globalLogBeginner
@@ -110,6 +111,8 @@ def gen(tape):
         "timeout": tape.weighted("config", [(1, 1), (2, 2), (2, 3), (3, 5), (3, 8), (3, 13), (2, 21)], "timeout"),
         "suppress": tape.chance("config", 1, 2, "suppress-logging"),
         "store": tape.chance("config", 1, 2, "store-logs"),
+        # what stages return and their Deferreds fire with (nothing about the run may depend on it)
+        "value": tape.weighted("config", [(8, None), (1, "zero"), (1, "any")], "stage-value"),
     }
     events = []
     for _ in range(tape.weighted("faults", [(9 - 2 * hot, 0), (hot, 1), (1 if hot > 2 else 0, 2)], "n-events")):
@@ -277,21 +280,22 @@ def run_one(tape, opts):
                     sim.fire(s[1])
         kind, exc, d = spec["end"][:3]
         chained = len(spec["end"]) > 3 and spec["end"][3]
+        val = _RETURNS[cfg.get("value")]
         if kind == "return":
-            return None
+            return val
         if kind == "raise":
             raise _exc(exc, spec["marker"])
         if kind == "fired":
-            return defer.succeed(None)
+            return defer.succeed(val)
         if kind == "failed":
             return defer.fail(_exc(exc, spec["marker"]))
         dd = defer.Deferred()
         if kind == "later_fire":
-            reactor.callLater(d, dd.callback, None)
+            reactor.callLater(d, dd.callback, val)
         elif kind == "later_fail":
             reactor.callLater(d, dd.errback, _exc(exc, spec["marker"]))
         if chained:
-            return defer.succeed(None).addCallback(lambda _: dd)
+            return defer.succeed(val).addCallback(lambda _: dd)
         return dd
 
     class Scripted(testtools.TestCase):
